@@ -182,6 +182,15 @@ def check(run_):
         [(A, 0, 2), (B, 0, 2), (A, 0, 3)],
         [(A, 0, None), (B, 0.5, 2), (A + B, 0.5, 2), (B, 0, 2)],
     ]
+    # thresholds that differ by one float step (and by less than the precision the confidences are reported with) around an observed
+    # confidence: the second run must not be served the first run's entry
+    import math
+    probe = run(A + B, None, 0)[0]
+    confs = sorted({r.get("confidence") for r in probe if r.get("solved_by") == "mcs-based" and isinstance(r.get("confidence"), float)})
+    for c in confs[:2 if run_.tier == "quick" else 6]:
+        up = math.nextafter(c, 2.0)
+        histories.append([(A + B, c, None), (A + B, up, None), (A + B, c, None)])
+        histories.append([(A + B, min(1.0, c + 0.0004), None), (A + B, max(0.0, c - 0.0004), None)])
     if run_.tier != "quick":
         for _ in range(6):
             histories.append([(rnd.sample(REACTIONS, rnd.randint(2, 6)), rnd.choice([0, 0.3, 0.9, 1.0]), rnd.choice([None, 1, 2, 3]))
